@@ -5,14 +5,14 @@ import (
 	"bufio"
 	"bytes"
 	"context"
-	"os/exec"
-	"time"
 	"encoding/hex"
 	"fmt"
 	"math/big"
 	"os"
+	"os/exec"
 	"sort"
 	"strings"
+	"time"
 )
 
 // ---------------------------------------------------------------- PRNG (splitmix64)
@@ -35,7 +35,7 @@ func (r *Rng) Intn(n int) int {
 	}
 	return int(r.U64() % uint64(n))
 }
-func (r *Rng) Bool() bool      { return r.U64()&1 == 1 }
+func (r *Rng) Bool() bool        { return r.U64()&1 == 1 }
 func (r *Rng) Chance(p int) bool { return r.Intn(100) < p } // p percent
 func (r *Rng) Bytes(n int) []byte {
 	b := make([]byte, n)
@@ -69,11 +69,11 @@ func (r *Rng) XORKeyStream(dst, src []byte) {
 
 // ---------------------------------------------------------------- value syntax
 
-func Z(b *big.Int) string   { return "z" + b.String() }
-func Zi(i int) string       { return fmt.Sprintf("z%d", i) }
-func Zi64(i int64) string   { return fmt.Sprintf("z%d", i) }
-func Zu64(i uint64) string  { return fmt.Sprintf("z%d", i) }
-func B(b []byte) string     { return "b" + hex.EncodeToString(b) }
+func Z(b *big.Int) string          { return "z" + b.String() }
+func Zi(i int) string              { return fmt.Sprintf("z%d", i) }
+func Zi64(i int64) string          { return fmt.Sprintf("z%d", i) }
+func Zu64(i uint64) string         { return fmt.Sprintf("z%d", i) }
+func B(b []byte) string            { return "b" + hex.EncodeToString(b) }
 func G(grp int, d *big.Int) string { return fmt.Sprintf("g%d:%s", grp, d.String()) }
 func L(xs ...string) string {
 	if len(xs) == 0 {
@@ -201,6 +201,9 @@ func RunSubP(name, arg string, timeout time.Duration) (string, string, string) {
 		return out.String(), "H", ""
 	}
 	if err != nil {
+		if ee, ok := err.(*exec.ExitError); ok && ee.ExitCode() == 97 {
+			return out.String(), "R", firstPanicLine(errb.String())
+		}
 		return out.String(), "P", firstPanicLine(errb.String())
 	}
 	return out.String(), "ok", ""
